@@ -199,7 +199,7 @@ Section Engine.
     intros Hst. unfold Model.fail_op. destruct (lookup id (s_ops s)) as [o|]; [|exact Hst].
     destruct (release s id o) as [s1| |] eqn:Er; [|exact Hst..].
     destruct (release_core _ _ _ _ _ _ _ _ _ Er) as (_ & _ & _ & _ & _ & _ & _ & Hst1).
-    unfold Model.disconnect_completion. rewrite Hst1, Hst. cbn. repeat dm; cbn [r_s]; congruence.
+    unfold Model.disconnect_completion. rewrite Hst1, Hst. cbn [pstate_eqb]. destruct (is_disconnect (op_packet o)); cbn; repeat dm; cbn [r_s]; congruence.
   Qed.
 
   Lemma fail_op_closedP s id e : closedP s -> closedP (r_s (fail_op s id e)).
@@ -225,7 +225,7 @@ Section Engine.
     s_ops s' = s_ops s -> s_next_id s' = s_next_id s -> s_ppub s' = s_ppub s -> s_alloc s' = s_alloc s ->
     s_settings s' = s_settings s -> s_st s' = s_st s -> s_cur s' = s_cur s -> s_hq s' = s_hq s -> closedQ s -> closedQ s'.
   Proof.
-    intros Ho Hn Hp Ha Hs Hst Hc Hq [(Hf & H1 & H2) H3]. repeat split; try congruence.
+    intros Ho Hn Hp Ha Hs Hst Hc Hq [(Hf & H1 & H2) H3]. split; [split; [|split]|]; try congruence.
     eapply flow_noff; [apply halted_noff|..|exact Hf]; auto.
   Qed.
 
@@ -250,7 +250,7 @@ Section Engine.
     is_panic (r_out (closed_current s)) = true \/ closedP (r_s (closed_current s)).
   Proof.
     intros Hf Hst. unfold Model.closed_current. destruct (s_cur s) as [id|] eqn:Ec.
-    2: { right. cbn. repeat split; [|exact Hst]. eapply flow_noff; [apply halted_noff|..|exact Hf]; auto. }
+    2: { right. cbn. split; [|split; [exact Hst|reflexivity]]. eapply flow_noff; [apply halted_noff|..|exact Hf]; auto. }
     match goal with |- context [try_ ?r ?f] => set (rv := r); set (fv := f) end.
     assert (Hr : (r_out rv = Ok tt \/ is_panic (r_out rv) = true) /\ flow_m Halted (r_s rv) /\ s_st (r_s rv) = Disconnected).
     { unfold rv. destruct (lookup id (s_ops s)) as [o|] eqn:El; [|cbn; auto].
@@ -266,13 +266,102 @@ Section Engine.
       destruct (op_packet o) eqn:Ep;
         try (cbn [r_s r_out r_done]; split; [destruct (is_panic (r_out (fail_op s id EConnectionClosed))) eqn:E; [right; exact E|left; reflexivity]|];
              split; [apply flow_fail_op; exact Hf|apply fail_op_st_disc; exact Hst]).
-      - repeat dm; try (apply Hpush; reflexivity); apply Hfail; rewrite Ep; reflexivity.
-      - repeat dm; try (apply Hpush; reflexivity); apply Hfail; rewrite Ep; reflexivity.
-      - repeat dm; try (apply Hpush; reflexivity); apply Hfail; rewrite Ep; reflexivity. }
+      - repeat dm; try (apply Hpush; reflexivity); apply Hfail; reflexivity.
+      - repeat dm; try (apply Hpush; reflexivity); apply Hfail; reflexivity.
+      - repeat dm; try (apply Hpush; reflexivity); apply Hfail; reflexivity. }
     destruct Hr as ([Hok|Hpan] & Hfl & Hs).
-    - right. unfold Model.try_. rewrite Hok. unfold fv. cbn. repeat split; [|exact Hs].
+    - right. unfold Model.try_. rewrite Hok. unfold fv. cbn. split; [|split; [exact Hs|reflexivity]].
       eapply flow_noff; [apply halted_noff|..|exact Hfl]; auto.
-    - left. unfold Model.try_. destruct (r_out rv); try discriminate. exact Hpan.
+    - left. unfold Model.try_. destruct (r_out rv) eqn:Eo; try discriminate. rewrite Eo. reflexivity.
   Qed.
 
+
+  Lemma andthen_closedQ (r : res) f :
+    is_panic (r_out r) = true \/ closedQ (r_s r) ->
+    (forall s1, closedQ s1 -> is_panic (r_out (f s1)) = true \/ closedQ (r_s (f s1))) ->
+    is_panic (r_out (andthen r f)) = true \/ closedQ (r_s (andthen r f)).
+  Proof.
+    intros H1 H2. unfold Model.andthen. destruct (is_panic (r_out r)) eqn:Ep; [left; exact Ep|].
+    destruct H1 as [H1|H1]; [congruence|]. specialize (H2 _ H1).
+    destruct (is_panic (r_out (f (r_s r)))) eqn:Ep2; cbn [r_s r_out]; [left; exact Ep2|].
+    destruct H2 as [H2|H2]; [congruence|]. right. exact H2.
+  Qed.
+
+  Lemma closed_current_out s : r_out (closed_current s) = Ok tt \/ is_panic (r_out (closed_current s)) = true.
+  Proof.
+    unfold Model.closed_current. destruct (s_cur s) as [id|]; [|left; reflexivity].
+    match goal with |- context [try_ ?r ?f] => assert (Hr : r_out r = Ok tt \/ is_panic (r_out r) = true) end.
+    { destruct (lookup id (s_ops s)) as [o|] eqn:El; [|left; reflexivity].
+      destruct (op_packet o) eqn:Ep;
+        try (cbn [r_out]; destruct (is_panic (r_out (fail_op s id EConnectionClosed))) eqn:E; [right; exact E|left; reflexivity]).
+      all: repeat dm; try (left; reflexivity); eapply fail_op_out_plain; [exact El|rewrite Ep; reflexivity]. }
+    unfold Model.try_. destruct Hr as [Hr|Hr]; [rewrite Hr; left; reflexivity|].
+    match goal with |- context [match r_out ?r with _ => _ end] => destruct (r_out r) eqn:E2; try discriminate end. right. reflexivity.
+  Qed.
+
+  Lemma try_closed (r : res) K :
+    (r_out r = Ok tt \/ is_panic (r_out r) = true) ->
+    (is_panic (r_out r) = true \/ closedP (r_s r)) ->
+    (forall s1, closedP s1 -> is_panic (r_out (K s1)) = true \/ closedQ (r_s (K s1))) ->
+    is_panic (r_out (try_ r K)) = true \/ closedQ (r_s (try_ r K)).
+  Proof.
+    intros Ho Hc HK. unfold Model.try_. destruct Ho as [Ho|Ho].
+    - rewrite Ho. cbn [r_s r_out]. destruct Hc as [Hc|Hc]; [rewrite Ho in Hc; discriminate|]. apply HK. exact Hc.
+    - destruct (r_out r) eqn:E; try discriminate. left. rewrite E. reflexivity.
+  Qed.
+
+  Lemma net_closed_raw_spec m s : flow_m m s -> s_st s <> Disconnected ->
+    is_panic (r_out (net_closed_raw s)) = true \/ closedQ (r_s (net_closed_raw s)).
+  Proof.
+    intros Hf Hst. unfold Model.net_closed_raw.
+    destruct (pstate_eqb (s_st s) Disconnected) eqn:E; [destruct (s_st s); try discriminate; congruence|].
+    match goal with |- context [closed_current ?s0] => set (s0v := s0) end.
+    assert (H0 : flow_m Halted s0v) by (eapply flow_eq; [..|eapply flow_halted; exact Hf]; reflexivity).
+    apply try_closed; [apply closed_current_out|apply closed_current_spec; [exact H0|reflexivity]|].
+    intros s1 Hc.
+    destruct (slow_start_init s1) as [s2| |] eqn:E2; [|left; reflexivity..].
+    destruct (update_retries s2) as [s3| |] eqn:E3; [|left; reflexivity..].
+    (* the two bookkeeping passes only rewrite operations in place *)
+    assert (H2 : closedP s2).
+    { destruct Hc as (A & B & C). revert E2. unfold Model.slow_start_init. repeat dm; intros H; inversion H; subst; try (split; [|split]; assumption).
+      split; [|split; [exact B|exact C]]. eapply flow_fold_update; [apply keeps_set_ss|..|exact A]; try reflexivity. intros id Hid. exact Hid. }
+    assert (H3 : closedP s3).
+    { destruct H2 as (A & B & C). revert E3. unfold Model.update_retries. repeat dm; intros H; inversion H; subst; try (split; [|split]; assumption).
+      split; [|split; [exact B|exact C]]. eapply flow_fold_update; [apply keeps_bump_intr|..|exact A]; try reflexivity. intros id Hid. exact Hid. }
+    assert (H4 : closedQ (s3 <| s_hq := [] |>)).
+    { destruct H3 as (A & B & C). split; [split; [|split; assumption]|reflexivity]. eapply flow_noff; [apply halted_noff|..|exact A]; auto. }
+    cbv zeta.
+    apply andthen_closedQ; [right; apply fail_all_closedQ; exact H4|].
+    intros s5 H5. destruct (partition_policy s5 (s_pwco s5)) as [kept rejected].
+    apply andthen_closedQ; [right; apply fail_all_closedQ; eapply closedQ_eq; [..|exact H5]; reflexivity|].
+    intros s7 H7. apply andthen_closedQ; [right; apply fail_exceeding_closedQ; exact H7|].
+    intros s8 H8.
+    match goal with |- context [partition_policy ?s10 ?q] => set (s10v := s10); destruct (partition_policy s10v q) as [kept_u rejected_u] end.
+    assert (H10 : closedQ s10v).
+    { destruct H8 as [(A & B & C) D]. split; [split; [|split; assumption]|exact D].
+      assert (A' : flow_m Halted (s8 <| s_ops := fold_left (fun ops id => update id (set_dup true) ops) (map snd (s_ppub s8)) (s_ops s8) |>)).
+      { eapply flow_fold_update; [apply keeps_set_dup|..|exact A]; try reflexivity. intros id Hid. exact Hid. }
+      destruct A' as [F1 F2 F3 F4 F5 F6]. constructor; try assumption.
+      - cbn. constructor.
+      - intros Hm. discriminate.
+      - intros Hoff. destruct (halted_noff Hoff). }
+    apply andthen_closedQ; [right; apply fail_all_closedQ; eapply closedQ_eq; [..|exact H10]; reflexivity|].
+    intros s12 H12. right. cbn. eapply closedQ_eq; [..|exact H12]; reflexivity.
+  Qed.
+
+  Lemma flow_net_closed s : flow_inv s ->
+    is_panic (r_out (net_closed s)) = true \/ flow_inv (halt_on_error (r_s (net_closed s)) (r_out (net_closed s))).
+  Proof.
+    unfold FlowInv.flow_inv. intros Hf. unfold Model.net_closed.
+    destruct (pstate_eqb (s_st s) Disconnected) eqn:E.
+    - right. unfold Model.net_closed_raw. rewrite E. cbn. eapply flow_halted. exact Hf.
+    - destruct (net_closed_raw_spec _ s Hf) as [Hp|[(A & B & C) D]]; [destruct (s_st s); try discriminate; congruence| |].
+      + left. destruct (r_out (net_closed_raw s)) as [|[]|]; try discriminate; reflexivity.
+      + right. assert (Hd : flow_m Disconnected (r_s (net_closed_raw s))) by (eapply flow_offline_intro; [exact A|exact C|exact D|left; reflexivity]).
+        destruct (r_out (net_closed_raw s)) as [|k|] eqn:Eo; cbn [r_s r_out Model.halt_on_error].
+        * rewrite B. exact Hd.
+        * destruct k; cbn [r_s r_out Model.halt_on_error]; try (cbn; eapply flow_halted; eapply flow_eq; [..|exact Hd]; reflexivity).
+          rewrite B. exact Hd.
+        * cbn. eapply flow_halted. eapply flow_eq; [..|exact Hd]; reflexivity.
+  Qed.
 End Engine.
